@@ -1190,7 +1190,10 @@ int _vnadata_load_touchstone(vnadata_internal_t *vdip, FILE *fp,
 	    continue;
 
 	case T_EOF:
-	    break;
+	    _vnadata_error(vdip, VNAERR_SYNTAX, "%s (line %d) error: "
+		    "unexpected end of file in option line",
+		tps.tps_filename, tps.tps_line);
+	    goto out;
 
 	default:
 	    _vnadata_error(vdip, VNAERR_SYNTAX, "%s (line %d) error: "
